@@ -203,7 +203,39 @@ def check_twice(case):
         shutil.rmtree(tmp, ignore_errors=True)
 
 
+def check_nested(case):
+    """a run that itself includes a file by a RELATIVE name is moved into a file of another directory that happens to hold a file of the same name: the
+    name keeps meaning what it meant where the run was written (relative names are looked up from the working directory)"""
+    rng = random.Random(case["seed"])
+    tmp = tempfile.mkdtemp(prefix="vfC16n")
+    cwd = os.getcwd()
+    try:
+        os.makedirs(os.path.join(tmp, "lib"))
+        open(os.path.join(tmp, "tables.s"), "w").write(".db 0x11, 0x22\n")
+        open(os.path.join(tmp, "lib", "tables.s"), "w").write(".db 0x99, 0x98, 0x97\n")
+        run_ = [".include 'tables.s'", "lda.w start", "inner:"]
+        open(os.path.join(tmp, "lib", "part.s"), "w").write(relayout(run_, rng, False, tmp))
+        open(os.path.join(tmp, "part.s"), "w").write(relayout(run_, rng, False, tmp))
+        os.chdir(tmp)
+        ref = observe("\n".join(["*=0x008000", "start:"] + run_ + ["rts", "after:", ".dw after, inner"]) + "\n")
+        if ref[0] != "ok":
+            raise RuntimeError(f"base program does not assemble: {ref[3]}")
+        where = ["lib/part.s", "part.s"][case["nested"] % 2]
+        variant = "\n".join(["*=0x008000", "start:", f".include '{where}'", "rts", "after:", ".dw after, inner"]) + "\n"
+        got = observe(variant)
+        if got[0] != "ok":
+            return f"the program with the run moved to {where} is rejected: {got[3]}", variant
+        if got[1] != ref[1] or got[2] != ref[2]:
+            return f"moving a run that includes 'tables.s' into {where} changes the output: {got[1][:2]} vs {ref[1][:2]}", variant
+        return None, variant + "# " + str(case["seed"])
+    finally:
+        os.chdir(cwd)
+        shutil.rmtree(tmp, ignore_errors=True)
+
+
 def check(case):
+    if "nested" in case:
+        return check_nested(case)
     if "run" in case:
         return check_twice(case)
     rng = random.Random(case["seed"])
@@ -244,6 +276,8 @@ def run(tier, seed):
         case = {"seed": seed * 2147483 + i, "base": (i % 7) if i % 7 < len(HAND) else 100 + i % 40, "include": i % 3 == 0}
         if i >= n:
             case = {"seed": seed * 2147483 + i, "run": i - n}
+            if (i - n) % 5 == 4:
+                case = {"seed": seed * 2147483 + i, "nested": (i - n) // 5}
         f, variant = check(case)
         distinct.add(variant)
         if i == 1:
@@ -256,7 +290,7 @@ def run(tier, seed):
     return {"evaluations": n + (40 if tier == "thorough" else 10), "distinct_nontrivial": len(distinct),
             "rule": "random compositions of: blank lines, indentation, trailing blanks, full-line and end-of-line ';' comments, one-line and multi-line /* */ comments "
                     "between statements, blanks next to operators / commas / inside brackets, letter case of mnemonics / size suffixes / index registers / hex digits, "
-                    "moving a run of top-level statements into an .include'd file, a repeated run (top level / named scope / block) included from ONE file at every occurrence -- on 2 hand-written programs covering every operand shape and 40 generated programs; "
+                    "moving a run of top-level statements into an .include'd file, a repeated run (top level / named scope / block) included from ONE file at every occurrence, a run with a relative .include of its own moved into another directory holding a same-named file -- on 2 hand-written programs covering every operand shape and 40 generated programs; "
                     "compares blocks and all symbol values with the original",
             "samples": samples, "failures": failures}
 
